@@ -136,6 +136,20 @@ var (
 	knownKeys     = map[string]string{}
 )
 
+// unknownFailureSoFar: some registered section has a failure whose key is not a known finding.
+func unknownFailureSoFar() bool {
+	regMu.Lock()
+	defer regMu.Unlock()
+	for _, s := range sections {
+		for _, f := range s.fails {
+			if _, ok := knownKeys[f.Key]; !ok || f.Key == "" {
+				return true
+			}
+		}
+	}
+	return false
+}
+
 func register(s *Section) {
 	regMu.Lock()
 	sections = append(sections, s)
